@@ -329,6 +329,7 @@ def cstr(n: ast.AST) -> str:
         body = _alpha(n.body, names)
         return 'lambda(%d:%s)' % (len(names), term(body))
     if isinstance(n, (ast.GeneratorExp, ast.ListComp, ast.SetComp, ast.DictComp)) and not getattr(n, '_alpha_done', False):
+        n = _fuse_comp(n)
         n = _items_canon(n)
         names = []
         for g in n.generators:
@@ -403,6 +404,45 @@ def _items_canon(n):
             else:
                 n.elt = R().visit(n.elt)
     return n
+
+
+def _fuse_comp(n):
+    """(E(a, b) for a, b in ((A(z), B(z)) for z in S))  is  (E(A(z), B(z)) for z in S): a comprehension over a generator
+    expression / list comprehension that only pairs values up is one comprehension"""
+    import copy
+    if len(n.generators) != 1:
+        return n
+    g = n.generators[0]
+    inner = g.iter
+    if not isinstance(inner, (ast.GeneratorExp, ast.ListComp)) or len(inner.generators) != 1:
+        return n
+    tgt = g.target
+    if isinstance(tgt, ast.Name):
+        names, parts = [tgt.id], [inner.elt]
+    elif isinstance(tgt, ast.Tuple) and isinstance(inner.elt, ast.Tuple) and len(tgt.elts) == len(inner.elt.elts) \
+            and all(isinstance(t, ast.Name) for t in tgt.elts):
+        names, parts = [t.id for t in tgt.elts], list(inner.elt.elts)
+    else:
+        return n
+    inner_names = {x.id for x in ast.walk(inner.generators[0].target) if isinstance(x, ast.Name)}
+    if inner_names & set(names):
+        return n
+    m = dict(zip(names, parts))
+
+    class _S(ast.NodeTransformer):
+        def visit_Name(self, x):
+            if isinstance(x.ctx, ast.Load) and x.id in m:
+                return copy.deepcopy(m[x.id])
+            return x
+    n2 = copy.deepcopy(n)
+    ig = copy.deepcopy(inner.generators[0])
+    ig.ifs = list(ig.ifs) + [_S().visit(c) for c in n2.generators[0].ifs]
+    n2.generators = [ig]
+    if isinstance(n2, ast.DictComp):
+        n2.key, n2.value = _S().visit(n2.key), _S().visit(n2.value)
+    else:
+        n2.elt = _S().visit(n2.elt)
+    return n2
 
 
 def _alpha(node, names):
